@@ -24,7 +24,7 @@ class ObservationFailed(Exception):
 def spec_cells(spec):
     out = []
     for text, atts in spec:
-        st = frozenset(k for k in STYLES if atts.get(k) is True)
+        st = frozenset(k for k in STYLES if atts.get(k))      # on: True (generators use nothing else) or, where a case says so, any truthy value
         fg, bg = atts.get("fg"), atts.get("bg")
         for ch in text:
             out.append((ch, fg, bg, st))
@@ -75,7 +75,7 @@ def touch_interrupted(f, k):
     fp = _FP[0]
     fp.mon.set_events(fp.tool, fp.mon.events.LINE)
     try:
-        for view in (str, lambda x: x.s, len, lambda x: x.width):
+        for view in (str, lambda x: x.s, len, lambda x: x.width, lambda x: x.divides):
             BUILD["interrupted_views"] += 1
             fp.arm(k)
             try:
@@ -89,6 +89,32 @@ def touch_interrupted(f, k):
     finally:
         fp.mon.set_events(fp.tool, 0)
     return f
+
+
+def interrupted_call(fn, k):
+    """run fn() while a KeyboardInterrupt (failpoint) lands at the k-th statement of curtsies code
+    it executes; True if the interrupt fired. What fn was working on is then used normally."""
+    from . import inject
+    if _FP[0] is None:
+        _FP[0] = inject.Failpoints()
+        _FP[0].install()
+        _FP[0].mon.set_events(_FP[0].tool, 0)
+    fp = _FP[0]
+    fp.mon.set_events(fp.tool, fp.mon.events.LINE)
+    try:
+        fp.arm(k)
+        try:
+            fn()
+        except inject.Inject:
+            BUILD["interrupts_fired"] += 1
+            return True
+        except Exception:  # noqa
+            pass
+        finally:
+            fp.disarm()
+    finally:
+        fp.mon.set_events(fp.tool, 0)
+    return False
 
 
 def build(spec, warm=None):
